@@ -23,6 +23,7 @@ type Event struct {
 	Pos  token.Pos
 	Ctx  string // emission context label ("" = the function itself, "go", "timer")
 	Loop string // non-empty: summary event of a loop
+	Cells map[string]SVal // downstream calls: the operator's cells as they are when the call is made (atevent(p, cell))
 }
 
 type Obl struct {
@@ -153,6 +154,7 @@ type LoopSpec struct {
 	Invariant []string // contract expressions
 	IterEmits []string // event patterns emitted by one iteration (nil = not constrained)
 	IterEnsures []string // properties of the events of one iteration (evaluated over that iteration's events only)
+	IterAdvances []string // how one iteration moves the loop variables: evaluated with their new values, atiter(v) is the value the iteration started with
 	Exit      []string // what holds when the loop condition fails (proved from the invariant and the negated condition): pins the number of iterations
 	Name      string
 	EvOrd     int  // ordinal used in the summary event's name when the contract was re-bound to a moved loop (0 = the loop's own; else ordinal+1)
@@ -691,6 +693,14 @@ func (x *Exec) block(st *State, b *ssa.BasicBlock, pred *ssa.BasicBlock, k Cont)
 			// phis take their back-edge values for the invariant check
 			x.assignPhis(st, b, pred)
 			x.exposeLoopVars(st, b)
+			for i, adv := range ls.IterAdvances {
+				g, err := x.H.EvalExpr(x, st, adv)
+				if err != nil {
+					x.unsupp(st, "loop contract: %v", err)
+					break
+				}
+				x.obl(st, fmt.Sprintf("%s/iteration-advances#%d", ls.Name, i), g, adv, b.Instrs[0].Pos())
+			}
 			for i, inv := range ls.Invariant {
 				g, err := x.H.EvalExpr(x, st, inv)
 				if err != nil {
@@ -745,7 +755,18 @@ func (x *Exec) block(st *State, b *ssa.BasicBlock, pred *ssa.BasicBlock, k Cont)
 				st.assume(g)
 			}
 		}
-		// the cells as they are when an iteration starts: atiter(x) in loop contracts
+		// the loop variables and cells as they are when an iteration starts: atiter(x) in loop contracts
+		for _, ins := range b.Instrs {
+			phi, ok := ins.(*ssa.Phi)
+			if !ok {
+				break
+			}
+			if phi.Comment != "" {
+				if v, ok := fr.Vals[phi]; ok {
+					st.NamedV["atiter:"+phi.Comment] = v
+				}
+			}
+		}
 		for key, v := range st.Heap {
 			if !strings.ContainsAny(key, ".#:@") {
 				st.NamedV["atiter:"+key] = v
@@ -1262,6 +1283,18 @@ func (x *Exec) event(st *State, ev Event) *Event {
 		if a.K == KSlice && a.Snap == "" {
 			a.Snap = x.arrTerm(st, a)
 			ev.Args[i] = a
+		}
+	}
+	if strings.HasPrefix(ev.Name, "destination.") && !x.DryRun {
+		ev.Cells = map[string]SVal{}
+		for key, v := range st.Heap {
+			if strings.ContainsAny(key, ".#:@[!") {
+				continue
+			}
+			if v.K == KSlice && v.Snap == "" {
+				v.Snap = x.arrTerm(st, v)
+			}
+			ev.Cells[key] = v
 		}
 	}
 	st.Events = append(st.Events, ev)
